@@ -365,6 +365,9 @@ def bench_program(rng, n_in=None):
         t = rng.choice(["buf", "not", "and", "nand", "or", "nor", "xor", "xnor"])
         k = 1 if t in ("buf", "not") else rng.randint(1, 3)
         ins = rng.sample(avail, min(k, len(avail)))
+        if t not in ("buf", "not") and rng.random() < 0.12:
+            ins = ins + [rng.choice(ins) for _ in range(rng.choice([1, 1, 2]))]     # a net repeated among the operands
+            rng.shuffle(ins)
         gates.append({"k": "gate", "t": t, "out": out, "ins": [("id", x) for x in ins]})
         avail.append(out)
     items = list(gates)
